@@ -27,6 +27,7 @@ BobOk(r) ==
   /\ ~r.hang
   /\ R.ok /\ R.last = r.res          \* the session ended, with the result the machine prescribes
   /\ r.outcome = "ok"                 \* into_outcome() did not panic
+  /\ r.ns = R.st.ns                   \* the outcome names the document once a request for it was allowed
   /\ (acc = "Reject" => ~r.changed)   \* a declined request changes nothing in the store
 
 RECURSIVE AliceRun(_, _)
